@@ -83,7 +83,7 @@ def check(ctx):
     ok = False
     if rmt is not None and rmt[0] == "tuple" and len(rmt[1]) == 7 and len(scan_calls) == 1:
         chain = ("proj", scan_calls[0], 1)
-        ok = all(rmt[1][3 + k] == ("s", chain, c(k)) for k in range(4))
+        ok = all(rmt[1][3 + k] in (("s", chain, c(k)), ("proj", chain, k)) for k in range(4))
     ctx.ob("C08.R1", sm, "_sample_many returns the scanned outputs in the order (positions, "
                          "infos, kernel states, quantities) at positions 3..6", ok,
            detail=short(rmt or (), 240))
@@ -604,7 +604,7 @@ def _kept_indices(idx, cfield, size, th_terms):
             if isinstance(base, list) and isinstance(i, list):
                 return [base[x] for x in i]
             raise concrete.Unmodelled(t)
-        if tag == "ifexp":
+        if tag in ("ifexp", "phi"):
             return ev(t[2], env) if ev(t[1], env) else ev(t[3], env)
         raise concrete.Unmodelled(t)
 
